@@ -6,6 +6,7 @@ CONSTANTS
   Ttl = 8
   Depth = 11
   OnlyEnds = TRUE
+  SortFirst = FALSE
 SPECIFICATION RSpec
 INVARIANT Emit
 INVARIANT CInv
